@@ -7,7 +7,7 @@ grammar written from the manuals.
 """
 import re
 from vlib import rustlex as rl
-from vlib.gen import make_r_fmt, make_r_sub, r_fold, r_dynw, r_unit_tail
+from vlib.gen import make_r_fmt, make_r_sub, r_fold, r_dynw, r_unit_tail, r_enumerate
 from units.render.unit import list_fns
 
 P = ["C14"]
@@ -234,6 +234,8 @@ fn vfmt_disp<W: VWrite, T: VDisp + ?Sized>(w: &mut W, x: &T) ensures final(w).tr
     mysql_table(u)
     postgres_table(u)
     index_fk(u)
+    pg_types(u)
+    column_types(u)
     u.emit("} // verus!\nfn main() {}\n")
 
 
@@ -812,4 +814,170 @@ def index_fk(u):
            rename="prepare_table_ref_fk_stmt_impl", requires="(*table_ref is Table) || (*table_ref is SchemaTable) || (*table_ref is DatabaseSchemaTable)")
     simple(u, PF, BF, "prepare_foreign_key_drop_statement_internal", "fkdrop_pg(*drop, mode)", [r_dynw, r_rawname, r_fmt], O + "::prepare_foreign_key_drop_statement_internal", key="PostgresQueryBuilder::prepare_foreign_key_drop_statement_internal")
     fk_fn(u, PF, BF, O, "prepare_foreign_key_create_statement_internal", "fkcreate_pg(*create, mode)", "fkpre_pg")
+    u.emit("}\n")
+
+
+TYPES_SPEC = r"""
+// ---- PostgreSQL CREATE / ALTER / DROP TYPE, CREATE / DROP EXTENSION ---------------------------------------------------------------
+// [database.][schema.]name: one identifier token per part
+pub open spec fn typeref_events(t: TypeRef) -> Seq<Ev> {
+    match t { TypeRef::Type(n) => seq![Ev::Iden(n)], TypeRef::SchemaType(s, n) => seq![Ev::Iden(s), lit("."), Ev::Iden(n)],
+              TypeRef::DatabaseSchemaType(d, s, n) => seq![Ev::Iden(d), lit("."), Ev::Iden(s), lit("."), Ev::Iden(n)] }
+}
+// CREATE TYPE name AS ENUM ( [ 'label' [, ... ] ] )     - the parentheses belong to the grammar even when there is no label
+pub open spec fn typecreate_events(c: TypeCreateStatement) -> Seq<Ev> {
+    seq![lit("CREATE TYPE ")] + (match c.name { Some(n) => seq![Ev::TypeRefEv(n)], None => emp() })
+        + (match c.as_type { Some(a) => seq![lit(" AS "), Ev::TypeAsEv(a)], None => emp() })
+        + (if c.values@.len() > 0 || c.as_type is Some { seq![lit(" (")] + l_labels(c.values@) + seq![lit(")")] } else { emp() })
+}
+// DROP TYPE [IF EXISTS] name [, ...] [CASCADE | RESTRICT]
+pub open spec fn typedrop_events(d: TypeDropStatement) -> Seq<Ev> {
+    seq![lit("DROP TYPE ")] + (if d.if_exists { seq![lit("IF EXISTS ")] } else { emp() }) + l_typerefs(d.names@)
+        + (match d.option { Some(o) => seq![lit(" "), lit(match o { TypeDropOpt::Cascade => "CASCADE", TypeDropOpt::Restrict => "RESTRICT" })], None => emp() })
+}
+// ALTER TYPE name ADD VALUE [IF NOT EXISTS] 'v' [{BEFORE | AFTER} 'n'] | RENAME TO new_name | RENAME VALUE 'old' TO 'new'
+pub open spec fn typealteropt_events(o: TypeAlterOpt) -> Seq<Ev> {
+    match o {
+        TypeAlterOpt::Add { value, placement, if_not_exists } => seq![lit(" ADD VALUE ")] + (if if_not_exists { seq![lit("IF NOT EXISTS ")] } else { emp() }) + seq![Ev::Label(value)]
+            + (match placement { Some(TypeAlterAddOpt::Before(b)) => seq![lit(" BEFORE "), Ev::Label(b)], Some(TypeAlterAddOpt::After(a)) => seq![lit(" AFTER "), Ev::Label(a)], None => emp() }),
+        TypeAlterOpt::Rename(n) => seq![lit(" RENAME TO "), Ev::Iden(n)],            // new_name is an IDENTIFIER in the grammar
+        TypeAlterOpt::RenameValue(e, n) => seq![lit(" RENAME VALUE "), Ev::Label(e), lit(" TO "), Ev::Label(n)],
+    }
+}
+pub open spec fn typealter_events(a: TypeAlterStatement) -> Seq<Ev> {
+    seq![lit("ALTER TYPE ")] + (match a.name { Some(n) => seq![Ev::TypeRefEv(n)], None => emp() }) + (match a.option { Some(o) => seq![Ev::TypeAlterOptEv(o)], None => emp() })
+}
+// CREATE EXTENSION [IF NOT EXISTS] name [WITH SCHEMA schema] [VERSION version] [CASCADE];  DROP EXTENSION [IF EXISTS] name [CASCADE | RESTRICT]
+pub open spec fn extcreate_events(c: ExtensionCreateStatement) -> Seq<Ev> {
+    seq![lit("CREATE EXTENSION ")] + (if c.if_not_exists { seq![lit("IF NOT EXISTS ")] } else { emp() }) + seq![Ev::Text(c.name@)]
+        + (match c.schema { Some(x) => seq![lit(" WITH SCHEMA "), Ev::Text(x@)], None => emp() }) + (match c.version { Some(x) => seq![lit(" VERSION "), Ev::Text(x@)], None => emp() })
+        + (if c.cascade { seq![lit(" CASCADE")] } else { emp() })
+}
+pub open spec fn extdrop_events(d: ExtensionDropStatement) -> Seq<Ev> {
+    seq![lit("DROP EXTENSION ")] + (if d.if_exists { seq![lit("IF EXISTS ")] } else { emp() }) + seq![Ev::Text(d.name@)]
+        + (if d.cascade { seq![lit(" CASCADE")] } else { emp() }) + (if d.restrict { seq![lit(" RESTRICT")] } else { emp() })
+}
+"""
+
+
+def pg_types(u):
+    T = "src/extension/postgres/types.rs"
+    E = "src/extension/postgres/extension.rs"
+    for k, n in [("enum", "TypeRef"), ("enum", "TypeAs"), ("enum", "TypeDropOpt"), ("enum", "TypeAlterAddOpt"), ("enum", "TypeAlterOpt")]:
+        u.type_item(T, k, n, props=P)
+    for n in ["TypeCreateStatement", "TypeDropStatement", "TypeAlterStatement"]:
+        u.type_item(T, "struct", n, props=P, rules=[r_vis])
+    for n in ["ExtensionCreateStatement", "ExtensionDropStatement"]:
+        u.type_item(E, "struct", n, props=P, rules=[r_vis])
+    u.spec("pub enum EvT { }\n", "schema::unused", props=P) if False else None
+    u.spec(list_fns("l_labels", "DynIden", "Ev::Label(%s)", "sep") + list_fns("l_typerefs", "TypeRef", "Ev::TypeRefEv(%s)", "sep"), "schema::type-lists", props=P)
+    u.spec(TYPES_SPEC, "schema::pg-types-spec", props=P)
+    BT, BE = "impl TypeBuilder for PostgresQueryBuilder", "impl ExtensionBuilder for PostgresQueryBuilder"
+    PTY, PEX = "src/backend/postgres/types.rs", "src/backend/postgres/extension.rs"
+    O = "PostgresQueryBuilderT"
+    u.emit("pub struct PostgresQueryBuilderT;\nimpl PostgresQueryBuilderT {\n")
+    u.spec(abstract("prepare_iden", "x: &DynIden", "Ev::Iden(*x)") + abstract("prepare_type_ref", "x: &TypeRef", "Ev::TypeRefEv(*x)") + abstract("prepare_create_as_type", "x: &TypeAs", "Ev::TypeAsEv(*x)")
+           + abstract("prepare_label", "x: &DynIden", "Ev::Label(*x)") + abstract("prepare_alter_type_opt", "x: &TypeAlterOpt", "Ev::TypeAlterOptEv(*x)")
+           + abstract("prepare_drop_type_opt", "x: &TypeDropOpt", "Ev::Lit((match *x { TypeDropOpt::Cascade => \"CASCADE\", TypeDropOpt::Restrict => \"RESTRICT\" })@)"),
+           "schema::abstract-sub-renderers(postgres types)", props=P)
+    # a label is written as a string literal: prepare_value of the label's text (the literal itself is unit escape / C03)
+    r_label = make_r_sub("R-opaque", r"self\.prepare_value\(&(\w+)\.to_string\(\)\.into\(\), sql\)", r"self.prepare_label(\1, sql)")
+    simple(u, T, "trait TypeBuilder", "prepare_type_ref", "typeref_events(*type_ref)", [r_dynw, r_iden, r_semi, r_fmt], O + "::prepare_type_ref_impl", key="TypeBuilder::prepare_type_ref", rename="prepare_type_ref_impl",
+           t0_extra=" let ghost t_ = *type_ref;", pre="assert(t_ == *type_ref);")
+    simple(u, PTY, BT, "prepare_type_create_statement", "typecreate_events(*create)", [r_dynw, r_label, r_enumerate, r_semi, r_fmt], O + "::prepare_type_create_statement", key="PostgresQueryBuilder::prepare_type_create_statement",
+           comment="CREATE TYPE name AS ENUM ( every label once, in call order, comma separated )",
+           loops=["invariant ite1.index@ <= create.values@.len(), create.values@.len() <= usize::MAX, count == ite1.index@, sql.tr() == tv + l_labels(create.values@.subrange(0, ite1.index@ as int)),"],
+           extra_proofs={"before#1:let mut count: usize = 0;": "let ghost tv = sql.tr();\nproof { lemma_l_labels_empty(create.values@); assert(tv + emp() =~= tv); axiom_vec_len_fits(&create.values); }",
+                         "before#1:count += 1;": "proof { lemma_l_labels_step(create.values@, ite1.index@ as int); }"},
+           pre="lemma_l_labels_empty(create.values@);")
+    simple(u, PTY, BT, "prepare_type_drop_statement", "typedrop_events(*drop)", [r_dynw, r_fold, r_semi, r_fmt], O + "::prepare_type_drop_statement", key="PostgresQueryBuilder::prepare_type_drop_statement",
+           loops=["invariant it1.index@ <= drop.names@.len(), first == (it1.index@ == 0), sql.tr() == tn + l_typerefs(drop.names@.subrange(0, it1.index@ as int)),"],
+           extra_proofs={"before#1:let mut first = true;": "let ghost tn = sql.tr();\nproof { lemma_l_typerefs_empty(drop.names@); assert(tn + emp() =~= tn); }",
+                         "loop1-end": "proof { lemma_l_typerefs_step(drop.names@, it1.index@ as int); }"},
+           pre="lemma_l_typerefs_empty(drop.names@);")
+    simple(u, PTY, BT, "prepare_type_alter_statement", "typealter_events(*alter)", [r_dynw, r_semi, r_fmt], O + "::prepare_type_alter_statement", key="PostgresQueryBuilder::prepare_type_alter_statement")
+    simple(u, PTY, "impl PostgresQueryBuilder", "prepare_alter_type_opt", "typealteropt_events(*opt)", [r_dynw, r_label, r_semi, r_fmt], O + "::prepare_alter_type_opt_impl", key="PostgresQueryBuilder::prepare_alter_type_opt",
+           rename="prepare_alter_type_opt_impl", t0_extra=" let ghost o_ = *opt;", pre="assert(o_ == *opt);")
+    simple(u, PEX, BE, "prepare_extension_create_statement", "extcreate_events(*create)", [r_dynw, r_semi, r_fmt], O + "::prepare_extension_create_statement", key="PostgresQueryBuilder::prepare_extension_create_statement")
+    simple(u, PEX, BE, "prepare_extension_drop_statement", "extdrop_events(*drop)", [r_dynw, r_semi, r_fmt], O + "::prepare_extension_drop_statement", key="PostgresQueryBuilder::prepare_extension_drop_statement")
+    u.emit("}\n")
+
+
+def r_bind_match(text, ctx):
+    """R-bind: `write!(sql, "{}", match X { .. }).unwrap()`  ->  `{ let ty_: String = match X { .. }; vtext_disp(sql, &ty_); }` (names the
+    formatted value so that a proof hint can talk about it; Display of a String is its text - R-fmt)"""
+    m = re.search(r'write!\(\s*sql,\s*"\{\}",\s*match ', text)
+    if not m:
+        raise rl.LostAnchor(ctx.key + ": R-bind: no `write!(sql, \"{}\", match ..)`")
+    toks = rl.code_toks(rl.lex(text[m.start():]))
+    k = next(i for i, t in enumerate(toks) if t.text == "(")
+    close = rl.match_close(toks, k)
+    inner_start = m.end() - len("match ")
+    expr = text[inner_start:m.start() + toks[close].start].rstrip().rstrip(",").rstrip()
+    end = m.start() + toks[close].end
+    m2 = re.match(r"\s*\.unwrap\(\)\s*;?", text[end:])
+    if not m2:
+        raise rl.Unsupported(ctx.key + ": R-bind: write! without .unwrap()")
+    ctx.app("R-bind", 'write!(sql, "{}", match ..).unwrap()', "{ let ty_: String = match ..; vtext_disp(sql, &ty_); }")
+    return text[:m.start()] + "let ty_: String = " + expr + ";\n        vtext_disp(sql, &ty_);" + text[end + m2.end():]
+
+
+def sized_lemma(fn_text):
+    """GENERATED from the literals found in the extracted function: each `name(<digits>)` literal is that name with SOME explicit length
+    (proved by Verus from the literal's characters, so a different default length in /repo is followed, not flagged)"""
+    lits = sorted(set(re.findall(r'"((?:varchar|varbinary)\()(\d+)\)"', fn_text)))
+    ens = ", ".join('with_some_len("%s"@, "%s%s)"@)' % (pre, pre, d) for pre, d in lits) or "true"
+    body = ""
+    for pre, d in lits:
+        body += '    reveal_strlit("%s%s)"); reveal_strlit("%s"); reveal_strlit("%s"); reveal_strlit(")");\n' % (pre, d, pre, d)
+        body += '    assert("%s%s)"@ =~= "%s"@ + "%s"@ + ")"@); assert(all_digits("%s"@));\n' % (pre, d, pre, d, d)
+    return "pub proof fn lemma_sized_lits()\n    ensures %s\n{\n%s}\n" % (ens, body)
+
+
+def column_types(u):
+    u.prelude_file("units/schema/types_spec.rs", props=P)
+    u.spec("impl VTextOf for PgInterval { open spec fn text(&self) -> Seq<char> { interval_fields_text(*self) } }\n"
+           "#[verifier::external_body]\nfn vstr_owned(x: &str) -> (r: String) ensures r@ == x@ { unimplemented!() }\n"
+           "#[verifier::external_body]\nfn viden_string(x: &DynIden) -> (r: String) ensures r@ == iden_text(*x) { unimplemented!() }\n"
+           "// R-arm-out: the MySQL ENUM('a', 'b') label list (iterator adapters + escape_string per label) is C03's position: abstract text\n"
+           "#[verifier::external_body]\nfn venum_text(v: &Vec<DynIden>) -> (r: String) ensures r@ == enum_text(v@) { unimplemented!() }\n"
+           "#[verifier::external_body]\nfn vtext_dispg<W: VTextW, T: VTextOf + ?Sized>(w: &mut W, x: &T) ensures final(w).text() == old(w).text() + x.text() { unimplemented!() }\n",
+           "schema::types-shims", props=P)
+    r_tfmt = make_r_fmt(wmap=lambda w: "&mut typ" if w == "typ" else w, merge=True, disp="vtext_dispg", lit="vtext_lit")
+    r_w = make_r_sub("R-dynw", r"W: VWrite", "W: VTextW")
+    r_into = make_r_sub("R-strfn", r'"([^"]*)"\.into\(\)', r'vstr_owned("\1")')
+    r_tostr = make_r_sub("R-strfn", r'"(\w+)"\.to_string\(\)', r'vstr_owned("\1")', min_count=0)
+    r_idstr = make_r_sub("R-strfn", r"\b(iden|name)\.to_string\(\)", r"viden_string(\1)")
+    r_unimpl = make_r_sub("R-panic", r'unimplemented!\("[^"]*"\)', '({ vpanic(); vstr_owned("") })')
+    MT, PT = "src/backend/mysql/table.rs", "src/backend/postgres/table.rs"
+    src_m = rl.find_fn(MT, u.src(MT), rl.find_block(MT, u.src(MT), "impl TableBuilder for MysqlQueryBuilder")[0], "prepare_column_type").text
+    src_p = rl.find_fn(PT, u.src(PT), rl.find_block(PT, u.src(PT), "impl TableBuilder for PostgresQueryBuilder")[0], "prepare_column_type").text
+    u.spec(sized_lemma(src_m + src_p), "schema::lemma_sized_lits(GENERATED from the literals in /repo)", props=P)
+    u.emit("pub struct MysqlTypes;\nimpl MysqlTypes {\n")
+    u.fn(MT, "impl TableBuilder for MysqlQueryBuilder", "prepare_column_type", props=P, key="MysqlQueryBuilder::prepare_column_type", vpath="MysqlTypes::prepare_column_type", prefix="#[verifier::rlimit(60)]\n    ",
+         rules=[r_dynw, r_w, r_bind_match,
+                make_r_sub("R-arm-out", r"format!\(\s*\"ENUM\('\{\}'\)\",\s*variants\s*\.iter\(\)\s*\.map\(\|v\| self\.escape_string\(&v\.to_string\(\)\)\)\s*\.collect::<Vec<_>>\(\)\s*\.join\(\"', '\"\)\s*,?\s*\)", "venum_text(variants)"),
+                r_format, r_into, r_idstr, r_unimpl, r_tfmt],
+         spec="""requires mysql_has(*column_type),       // the renderer is unimplemented!() for the types MySQL does not have
+ensures
+    // a type MySQL defines for this abstract type; length / precision / scale and UNSIGNED preserved
+    exists|t: Seq<char>| final(sql).text() == old(sql).text() + t && mysql_type_ok(*column_type, t),""",
+         proofs={"body-start": "let ghost t0 = sql.text(); let ghost ct_ = *column_type;\nproof { lemma_sized_lits(); }",
+                 "after#1:vtext_disp(sql, &ty_);": "let ghost tb = ty_@;\nproof { assert(mysql_base_ok(ct_, tb)); }",
+                 "body-end": "proof { let ghost t = sql.text().subrange(t0.len() as int, sql.text().len() as int); assert(sql.text() =~= t0 + t); assert(t =~= tb + unsigned_sfx(ct_)); assert(mysql_type_ok(ct_, t)); }"})
+    u.emit("}\n")
+    u.emit("pub struct PostgresTypes;\nimpl PostgresTypes {\n")
+    u.fn(PT, "impl TableBuilder for PostgresQueryBuilder", "prepare_column_type", props=P, key="PostgresQueryBuilder::prepare_column_type", vpath="PostgresTypes::prepare_column_type", prefix="#[verifier::rlimit(60)]\n    ",
+         rules=[r_dynw, r_w, r_bind_match, r_format, r_into, r_tostr, r_idstr, r_unimpl, r_tfmt,
+                make_r_sub("R-shadow", r"let mut sql = String::new\(\);\s*self\.prepare_column_type\(elem_type, &mut sql\);", "let mut sql2 = String::new();\n                    self.prepare_column_type(elem_type, &mut sql2);"),
+                make_r_sub("R-shadow", r"vpush_disp\(&mut f_, &\(sql\)\); f_\.push_str\(\"\[\]\"\);", "vpush_disp(&mut f_, &(sql2)); f_.push_str(\"[]\");")],
+         spec="""requires pg_has(*column_type),       // Year: unimplemented!() in the renderer
+ensures
+    // a type PostgreSQL defines for this abstract type; length / precision / scale preserved; arrays of such a type
+    exists|t: Seq<char>| final(sql).text() == old(sql).text() + t && pg_type_ok(*column_type, t),
+decreases *column_type,""",
+         proofs={"body-start": "let ghost t0 = sql.text(); let ghost ct_ = *column_type; let ghost mut te_ = Seq::<char>::empty();",
+                 "after#1:self.prepare_column_type(elem_type, &mut sql2);": "proof { let te = choose|te: Seq<char>| sql2@ == Seq::<char>::empty() + te && pg_type_ok(**elem_type, te); assert(sql2@ =~= te); assert(pg_type_ok(**elem_type, sql2@)); assert(Seq::<char>::empty() + sql2@ =~= sql2@); te_ = sql2@; }",
+                 "before#1:                    typ\n": "proof { assert(typ@ =~= \"interval\"@ + (match *fields { Some(f) => \" \"@ + interval_fields_text(f), None => Seq::<char>::empty() }) + (match *precision { Some(p) => \"(\"@ + num_text(p as int) + \")\"@, None => Seq::<char>::empty() })); }",
+                 "after#1:vtext_disp(sql, &ty_);": "proof { if ct_ is Array { reveal_strlit(\"[]\"); assert(ty_@ =~= te_ + \"[]\"@); assert(ty_@.subrange(0, ty_@.len() - 2) =~= te_); assert(ty_@.subrange(ty_@.len() - 2, ty_@.len() as int) =~= \"[]\"@); } assert(pg_type_ok(ct_, ty_@)); assert(sql.text() == t0 + ty_@); }"})
     u.emit("}\n")
